@@ -118,7 +118,9 @@ def run_mutant(m, tier='quick', runs=None, timeout=900):
         env.pop('KNEESIM_PINNED', None)
         env['KNEESIM_SRC'] = os.path.join(d, 'src')
         env['KNEESIM_OUT'] = os.path.join(d, 'out')
-        cmd = [sys.executable, os.path.join(core.VERIF_DIR, 'checks', 'run.py'), m['property'], '--tier', tier, '--no-selftest']
+        cmd = [sys.executable, os.path.join(core.VERIF_DIR, 'checks', 'run.py'), m['property'], '--tier', tier]
+        if m['id'] not in globals().get('NEEDS_SELFTEST', set()):
+            cmd.append('--no-selftest')
         if runs:
             cmd += ['--runs', str(runs)]
         try:
@@ -200,3 +202,9 @@ mut('c20-revert-fix-ema', 'C20', 'kneedle.py', None, None, 'revert of 3ba1656: k
     scope=('def _knee(', 'def _knees('), repl=('ema.ema_linear(', 'ema.linear('))
 mut('c20-revert-fix-contiguous', 'C20', 'linear_fit.py', "    p = np.ascontiguousarray(p)\n", "    p = p\n",
     'revert of 06db5f8: shortest_distance_points differs in the last bit for Fortran-ordered points (rare: data dependent)')
+
+mut('c20-hashseed-string-set-order', 'C20', 'postprocessing.py',
+    "                h_min = h\n\n        return np.array(filtered_knees)",
+    "                h_min = h\n\n        filtered_knees = [int(v) for v in {str(int(k)) for k in filtered_knees}]  # de-duplicate\n        return np.array(filtered_knees)",
+    'filter_worst_knees de-duplicates through a set of strings: result order depends on PYTHONHASHSEED (needs the self-test interpreters)')
+NEEDS_SELFTEST = {'c20-hashseed-string-set-order'}
